@@ -226,6 +226,9 @@ def judge(verdict, ff, craised, errs):
     return bad
 
 
+_REUSED = {}
+
+
 def w_cases(items):
     from metapype.model.node import Node
     out, n = [], 0
@@ -263,7 +266,13 @@ def w_cases(items):
                     wrap = Node("zzForeignWrapper")
                     holder.add_child(wrap)
                     wrap.add_child(p)
-            ff, craised, errs = c01.validate_both(unit, el, p)
+            robj = None
+            if rep_i % 3 == 1 and unit != "@metadata" and p.name != "metadata":
+                from metapype.eml import rule as _rule
+                robj = _REUSED.get(unit)
+                if robj is None:
+                    robj = _REUSED[unit] = _rule.Rule(unit)      # ONE rule object per rule for the whole worker: its answers must not depend on its past
+            ff, craised, errs = c01.validate_both(unit, el, p, rule_obj=robj)
             Node.store.clear()
             n += 1
             counts[c["verdict"]] += 1
